@@ -90,8 +90,12 @@ static uint8_t loop_stop(m_ctx_t *c) {
     /* Publish loop stopped system message */
     tell_system_pubsub_msg(NULL, c, NULL, M_PS_CTX_STOPPED);
     
-    /* Flush pubsub msg to avoid memleaks */
-    m_iterate(c->modules, flush_pubsub_msgs, NULL);
+    /*
+     * Flush pubsub msg to avoid memleaks.
+     * The walk stops with -EACCES as soon as a callback (de)registers another module:
+     * go on until every mailbox was flushed (flushing an empty mailbox is a no-op).
+     */
+    while (m_map_len(c->modules) > 0 && m_iterate(c->modules, flush_pubsub_msgs, NULL) == -EACCES);
     
     /* Stop FS */
     fs_stop(c);
